@@ -20,11 +20,15 @@ type c09Op struct {
 	Kind  string
 	Shape int
 	N     uint64
+	Key   string // F with a non-empty Key: flush a table holding one (new) version of this key
 }
 
 func (o c09Op) String() string {
 	switch o.Kind {
 	case "F":
+		if o.Key != "" {
+			return "F(" + o.Key + ")"
+		}
 		return "F(" + c09Shapes[o.Shape].name + ")"
 	case "W":
 		return fmt.Sprintf("W(newest-%d)", o.N)
@@ -116,7 +120,11 @@ func c09Run(cf c09Cfg, seq []c09Op, verbose bool) (st c09State, verr error) {
 			switch op.Kind {
 			case "F":
 				var vs []ver
-				for _, e := range c09Shapes[op.Shape].ents {
+				shape := c09Shapes[op.Shape].ents
+				if op.Key != "" {
+					shape = []ver{{Key: op.Key}}
+				}
+				for _, e := range shape {
 					e.Ts = next
 					next++
 					vs = append(vs, e)
@@ -315,6 +323,49 @@ func c09Units(tier string) []Unit {
 			}
 		}
 	}
+	// long histories: more tables in one level than one decimal digit of table index, a recover at every position
+	for _, g := range []geo{{1, 20}, {14, 10}} {
+		g := g
+		units = append(units, Unit{Name: fmt.Sprintf("long-run/L0=%d/ratio=%d/recover-at-every-position", g.l0, g.ratio), Weight: 3, Run: func(c *Ctx) {
+			cf := c09Cfg{L0: g.l0, Ratio: g.ratio, Block: 4096}
+			if c.Replay != nil {
+				c09Search(c, cf)
+				return
+			}
+			const n = 13
+			for at := 0; at <= n; at++ {
+				var seq []c09Op
+				for i := 0; i <= n; i++ {
+					if i == at {
+						seq = append(seq, c09Op{Kind: "R"})
+					}
+					if i < n {
+						seq = append(seq, c09Op{Kind: "F", Key: fmt.Sprintf("g%02d", i)})
+					}
+				}
+				// one more table and compaction on the recovered handles, an overwrite of an old key, then recover again
+				seq = append(seq, c09Op{Kind: "F", Key: "g05"}, c09Op{Kind: "F", Key: "g99"}, c09Op{Kind: "R"})
+				// the invariant is checked after the last operation of a sequence: check every prefix that ends in F or R
+				for l := 1; l <= len(seq); l++ {
+					if l < len(seq) && l < n {
+						continue // early prefixes are covered by the breadth-first units
+					}
+					st, err := c09Run(cf, seq[:l], false)
+					c.Res.Executions++
+					c.Res.Transitions++
+					c.Res.Evaluations++
+					if err != nil {
+						oe := err.(*OracleErr)
+						c.Violation(oe.Sig, oe.Detail, nil, seq[:l])
+						break
+					}
+					c.Res.States++
+					c.NT(st.key)
+					c.Outcome(fmt.Sprintf("tables=%d levels=%d discarded-versions=%d", min(st.tables, 15), st.levels, st.discarded))
+				}
+			}
+		}})
+	}
 	return units
 }
 
@@ -403,7 +454,7 @@ func c09SearchFrom(c *Ctx, cf c09Cfg, first int) {
 func init() {
 	Props["C09"] = &PropMeta{
 		Units: c09Units,
-		Rule: "breadth-first explicit-state search over operation sequences on a real levelManager (flush of a memtable image from a shape menu followed by checkAndCompact, " +
+		Rule: "(plus long histories of 13 single-key tables in one level with a recover at every position) breadth-first explicit-state search over operation sequences on a real levelManager (flush of a memtable image from a shape menu followed by checkAndCompact, " +
 			"moving the discard watermark through the real read mark, rebuilding the manager with recover()), deduplicated on the canonical state " +
 			"(levels -> tables -> entries, watermark, next version, live/recovered); after the last operation of every sequence every (user key, ts >= largest watermark) lookup " +
 			"is compared with the versioned model of everything ever flushed; a state is non-trivial when it has tables on two levels or a version has been discarded",
